@@ -62,6 +62,17 @@ impl Host {
             retry_policy: None, detached: false, enable_exactly_once_delivery: false, topic_message_retention_duration: None, state: 0,
         }).await.map(|r| r.into_inner())
     }
+    async fn push_sub(&mut self, name: &str, topic: &str, endpoint: &str, attrs: HashMap<String, String>) -> Result<Subscription, tonic::Status> {
+        let mut s = Subscription {
+            name: name.to_string(), topic: topic.to_string(),
+            push_config: Some(PushConfig { attributes: attrs, authentication_method: None, push_endpoint: endpoint.to_string() }),
+            bigquery_config: None, ack_deadline_seconds: 0, retain_acked_messages: false, message_retention_duration: None,
+            labels: Default::default(), enable_message_ordering: false, expiration_policy: None, filter: String::new(), dead_letter_policy: None,
+            retry_policy: None, detached: false, enable_exactly_once_delivery: false, topic_message_retention_duration: None, state: 0,
+        };
+        s.state = 0;
+        self.subscriber.create_subscription(s).await.map(|r| r.into_inner())
+    }
     async fn publish(&mut self, topic: &str, msgs: Vec<(Vec<u8>, HashMap<String, String>)>) -> Result<Vec<String>, tonic::Status> {
         self.publisher.publish(PublishRequest { topic: topic.to_string(), messages: msgs.into_iter().map(|(d, a)| PubsubMessage { publish_time: None, attributes: a, message_id: String::new(), ordering_key: String::new(), data: d }).collect() })
             .await.map(|r| r.into_inner().message_ids)
@@ -163,6 +174,27 @@ async fn s_batches(h: &mut Host) -> Result<(), Fail> {
     Ok(())
 }
 
+
+/// C05 / C03: one unary ModifyAckDeadline request that extends several deliveries keeps every one of them leased
+async fn s_multi_extend(h: &mut Host) -> Result<(), Fail> {
+    let (t, s) = ("projects/p/topics/me", "projects/p/subscriptions/me");
+    h.topic(t).await.map_err(c10("CreateTopic of an absent, well-formed name"))?;
+    h.sub(s, t, 0, None).await.map_err(c10("CreateSubscription of an absent name on an existing topic of the same project"))?;
+    // one unary request extends SEVERAL deliveries: every one of them stays leased (C05; C03: not handed to another pull)
+    h.publish(t, (10..13).map(|i| (vec![i], HashMap::new())).collect()).await.map_err(setup("publish"))?;
+    let ext = h.pull(s, 10, true).await.map_err(setup("pull"))?;
+    if ext.len() != 3 { return Err(f("SETUP", format!("expected 3 messages, got {}", ext.len()))); }
+    h.modack(s, ext.iter().map(|x| x.ack_id.clone()).collect(), 120).await.map_err(|e| f("C05", format!("ModifyAckDeadline(3 ids, 120 s) failed: {:?}", e.code())))?;
+    jump(Duration::from_secs(30)).await;
+    let early = h.pull(s, 10, true).await.map_err(setup("pull"))?;
+    if !early.is_empty() { return Err(f("C05+C03", format!("3 deliveries extended to 120 s in one ModifyAckDeadline request: {} of them were handed out again after 30 s", early.len()))); }
+    jump(Duration::from_secs(100)).await;
+    let mut back = 0;
+    for _ in 0..100 { back += h.pull(s, 10, true).await.map_err(setup("pull"))?.len(); if back >= 3 { break; } tokio::time::sleep(Duration::from_millis(50)).await; }
+    if back != 3 { return Err(f("C05+C04", format!("130 s after an extension to 120 s, {} of 3 deliveries were redelivered", back))); }
+    Ok(())
+}
+
 /// C05: a deadline extension sent inside a StreamingPull counts from the moment it is received
 async fn s_stream_modack(h: &mut Host) -> Result<(), Fail> {
     let (t, s) = ("projects/p/topics/st", "projects/p/subscriptions/st");
@@ -192,7 +224,18 @@ async fn s_stream_modack(h: &mut Host) -> Result<(), Fail> {
             if let Ok(Ok(Some(r2))) = tokio::time::timeout(Duration::from_millis(400), inbound.message()).await {
                 if !r2.received_messages.is_empty() { return Err(f("C02", "a message acknowledged inside a StreamingPull was delivered again".into())); }
             }
-            Ok(())
+            // one control message carrying BOTH an acknowledgement and a nack: both are applied (C02, C05)
+            h.publish(t, vec![(b"m1".to_vec(), HashMap::new()), (b"m2".to_vec(), HashMap::new())]).await.map_err(setup("publish"))?;
+            let mut two = Vec::new();
+            while two.len() < 2 {
+                match tokio::time::timeout(Duration::from_secs(15), inbound.message()).await { Ok(Ok(Some(r))) => two.extend(r.received_messages), _ => return Err(f("SETUP", "open StreamingPull did not receive two published messages".to_string())) }
+            }
+            tx.send(ctl(vec![two[1].ack_id.clone()], vec![0], vec![two[0].ack_id.clone()])).await.map_err(setup("send"))?;
+            match tokio::time::timeout(Duration::from_secs(5), inbound.message()).await {
+                Ok(Ok(Some(r))) if r.received_messages.len() == 1 && r.received_messages[0].message.as_ref().map(|m| m.data.clone()) == two[1].message.as_ref().map(|m| m.data.clone()) => Ok(()),
+                Ok(Ok(Some(r))) => Err(f("C05+C02", format!("control message with an ack and a nack: {} messages came back, expected exactly the nacked one", r.received_messages.len()))),
+                _ => Err(f("C05", "control message with an ack and a nack (N=0): the nacked message was not returned to the queue".to_string())),
+            }
         }
         _ => Err(f("C05+C04", "65 s after a 60 s extension the delivery was not redelivered with a new ack id".to_string())),
     }
@@ -212,7 +255,8 @@ async fn s_namespace(h: &mut Host) -> Result<(), Fail> {
     expect_code(h.ack(s, vec!["1".into()]).await, Code::NotFound, "C10", "Acknowledge on an absent subscription")?;
     expect_code(h.modack(s, vec!["1".into()], 10).await, Code::NotFound, "C10", "ModifyAckDeadline on an absent subscription")?;
     expect_code(h.subscriber.delete_subscription(DeleteSubscriptionRequest { subscription: s.into() }).await, Code::NotFound, "C10", "DeleteSubscription of an absent subscription")?;
-    for (secs, eff) in [(0, 10), (5, 10), (10, 10), (25, 25), (-3, 10)] {
+    expect_code(h.subscriber.get_subscription(GetSubscriptionRequest { subscription: "projects/other/subscriptions/ns".into() }).await, Code::NotFound, "C17+C10", "GetSubscription after a CreateSubscription rejected for its project (the rejected request changed state)")?;
+    for (secs, eff) in [(0, 10), (5, 10), (10, 10), (25, 25), (-3, 10), (600, 600), (601, 601), (900, 900)] {
         let name = format!("projects/p/subscriptions/ns{}", secs + 10);
         let created = h.sub(&name, t, secs, Some("http://localhost:1/push")).await.map_err(|e| f("C10", format!("CreateSubscription failed: {:?}", e.code())))?;
         let read = h.subscriber.get_subscription(GetSubscriptionRequest { subscription: name.clone() }).await.map_err(|e| f("C10", format!("GetSubscription of a created subscription: {:?}", e.code())))?.into_inner();
@@ -236,6 +280,17 @@ async fn s_namespace(h: &mut Host) -> Result<(), Fail> {
     let mut back = 0;
     for _ in 0..100 { back = h.pull(name, 1, true).await.map_err(setup("pull"))?.len(); if back == 1 { break; } tokio::time::sleep(Duration::from_millis(50)).await; }
     if back != 1 { return Err(f("C04", "ack_deadline_seconds=3: not redelivered 11 s after hand-out".into())); }
+    // C04 through the API: a subscription created with 900 s keeps a delivery leased for 900 s
+    let long = "projects/p/subscriptions/long";
+    h.sub(long, t, 900, None).await.map_err(c10("CreateSubscription of an absent name on an existing topic of the same project"))?;
+    h.publish(t, vec![(vec![8], HashMap::new())]).await.map_err(setup("publish"))?;
+    if h.pull(long, 1, true).await.map_err(setup("pull"))?.len() != 1 { return Err(f("SETUP", "no message".into())); }
+    jump(Duration::from_secs(750)).await;
+    if !h.pull(long, 1, true).await.map_err(setup("pull"))?.is_empty() { return Err(f("C04", "ack_deadline_seconds=900: redelivered 750 s after hand-out".into())); }
+    jump(Duration::from_secs(152)).await;
+    let mut back = 0;
+    for _ in 0..100 { back = h.pull(long, 1, true).await.map_err(setup("pull"))?.len(); if back == 1 { break; } tokio::time::sleep(Duration::from_millis(50)).await; }
+    if back != 1 { return Err(f("C04", "ack_deadline_seconds=900: not redelivered 902 s after hand-out".into())); }
     h.publisher.delete_topic(DeleteTopicRequest { topic: t.into() }).await.map_err(|e| f("C10+C11", format!("DeleteTopic failed: {:?}", e.code())))?;
     expect_code(h.publisher.get_topic(GetTopicRequest { topic: t.into() }).await, Code::NotFound, "C10+C11", "GetTopic after DeleteTopic returned")?;
     let orphan = h.subscriber.get_subscription(GetSubscriptionRequest { subscription: name.into() }).await.map_err(|e| f("C11", format!("subscription of a deleted topic is gone: {:?}", e.code())))?.into_inner();
@@ -248,14 +303,14 @@ async fn s_malformed(h: &mut Host) -> Result<(), Fail> {
     let t = "projects/p/topics/mf";
     h.topic(t).await.map_err(c10("CreateTopic of an absent, well-formed name"))?;
     h.sub("projects/p/subscriptions/mf", t, 0, None).await.map_err(c10("CreateSubscription of an absent name on an existing topic of the same project"))?;
-    for bad in ["", "nope", "projects/p", "projects//topics/x", "projects/p/topics/", "projects\u{e9}p/topics/abcdefgh", "projects/p/tobics/abcdef", "projects/p/subscriptions/mf", "projects/p/topics////"] {
-        expect_code(h.publisher.get_topic(GetTopicRequest { topic: bad.into() }).await, Code::InvalidArgument, "C17", &format!("GetTopic({:?})", bad))?;
-        expect_code(h.publish(bad, vec![(vec![1], HashMap::new())]).await, Code::InvalidArgument, "C17", &format!("Publish({:?})", bad))?;
+    for bad in ["", "nope", "projects/p", "projects//topics/x", "projects/p//topics/abc", "projects//p/topics/abc", "projects/p/topics/", "projects\u{e9}p/topics/abcdefgh", "projects/p/tobics/abcdef", "projects/p/subscriptions/mf", "projects/p/topics////"] {
+        expect_code(h.publisher.get_topic(GetTopicRequest { topic: bad.into() }).await, Code::InvalidArgument, "C17+C18", &format!("GetTopic({:?})", bad))?;
+        expect_code(h.publish(bad, vec![(vec![1], HashMap::new())]).await, Code::InvalidArgument, "C17+C18", &format!("Publish({:?})", bad))?;
     }
     for bad in ["", "nope", "projects/p/topics/mf", "projects\u{e9}lets-go/subscriptions/deltio", "projects/p/subscriptions/", "projects//subscriptions/x"] {
-        expect_code(h.pull(bad, 1, true).await, Code::InvalidArgument, "C17", &format!("Pull({:?})", bad))?;
-        expect_code(h.ack(bad, vec!["1".into()]).await, Code::InvalidArgument, "C17", &format!("Acknowledge({:?})", bad))?;
-        expect_code(h.subscriber.get_subscription(GetSubscriptionRequest { subscription: bad.into() }).await, Code::InvalidArgument, "C17", &format!("GetSubscription({:?})", bad))?;
+        expect_code(h.pull(bad, 1, true).await, Code::InvalidArgument, "C17+C18", &format!("Pull({:?})", bad))?;
+        expect_code(h.ack(bad, vec!["1".into()]).await, Code::InvalidArgument, "C17+C18", &format!("Acknowledge({:?})", bad))?;
+        expect_code(h.subscriber.get_subscription(GetSubscriptionRequest { subscription: bad.into() }).await, Code::InvalidArgument, "C17+C18", &format!("GetSubscription({:?})", bad))?;
     }
     expect_code(h.sub("projects/p/subscriptions/pushy", t, 0, Some("ftp://nope")).await, Code::InvalidArgument, "C17", "CreateSubscription with an unsupported push endpoint")?;
     expect_code(h.subscriber.get_subscription(GetSubscriptionRequest { subscription: "projects/p/subscriptions/pushy".into() }).await, Code::NotFound, "C17+C10", "GetSubscription after a rejected CreateSubscription (the rejected request changed state)")?;
@@ -273,6 +328,15 @@ async fn s_malformed(h: &mut Host) -> Result<(), Fail> {
         if let Err(e) = r { if e.code() != Code::InvalidArgument { return Err(f("C13+C17", format!("ListTopicSubscriptions with the token {:?}: {:?}", tok, e.code()))); } }
         let r = h.subscriber.list_subscriptions(ListSubscriptionsRequest { project: "projects/p".into(), page_size: 5, page_token: tok.into() }).await;
         if let Err(e) = r { if e.code() != Code::InvalidArgument { return Err(f("C13+C17", format!("ListSubscriptions with the token {:?}: {:?}", tok, e.code()))); } }
+    }
+    // C18 through the handlers: names that differ denote different topics, and the echoed name denotes the same one
+    let (xa, xb) = ("projects/p/topics/x/y", "projects/p/topics/x//y");
+    let ea = h.publisher.create_topic(Topic { name: xa.into(), labels: Default::default(), message_storage_policy: None, kms_key_name: String::new(), schema_settings: None, satisfies_pzs: false, message_retention_duration: None }).await.map_err(|e| f("C18+C10", format!("CreateTopic({:?}) failed: {:?}", xa, e.code())))?.into_inner().name;
+    let eb = h.publisher.create_topic(Topic { name: xb.into(), labels: Default::default(), message_storage_policy: None, kms_key_name: String::new(), schema_settings: None, satisfies_pzs: false, message_retention_duration: None }).await.map_err(|e| f("C18", format!("CreateTopic({:?}) after CreateTopic({:?}) failed: {:?} (names that differ in the id denote different topics)", xb, xa, e.code())))?.into_inner().name;
+    if ea == eb { return Err(f("C18", format!("CreateTopic({:?}) and CreateTopic({:?}) echo the same name {:?}", xa, xb, ea))); }
+    for e in [&ea, &eb] {
+        let got = h.publisher.get_topic(GetTopicRequest { topic: e.clone() }).await.map_err(|s| f("C18", format!("the echoed name {:?} is not accepted back: {:?}", e, s.code())))?.into_inner().name;
+        if got != *e { return Err(f("C18", format!("GetTopic({:?}) answers for {:?}", e, got))); }
     }
     // the server keeps serving
     h.publish(t, vec![(vec![1], HashMap::new())]).await.map_err(|e| f("C17", format!("server no longer serves after malformed requests: {:?}", e.code())))?;
@@ -423,7 +487,8 @@ async fn s_push_content(h: &mut Host) -> Result<(), Fail> {
     let (t, s) = ("projects/p/topics/pc", "projects/p/subscriptions/pc");
     let (url, mut rx) = push_endpoint().await?;
     h.topic(t).await.map_err(c10("CreateTopic of an absent, well-formed name"))?;
-    h.sub(s, t, 0, Some(&url)).await.map_err(c10("CreateSubscription (push) of an absent name on an existing topic"))?;
+    let cfg_attrs: HashMap<String, String> = [("x-goog-version".to_string(), "v1".to_string())].into_iter().collect();
+    h.push_sub(s, t, &url, cfg_attrs).await.map_err(c10("CreateSubscription (push) of an absent name on an existing topic"))?;
     let attrs: HashMap<String, String> = [("k".to_string(), "v".to_string()), ("k\u{e9}".to_string(), "\u{1F600}".to_string())].into_iter().collect();
     let payloads: Vec<(Vec<u8>, HashMap<String, String>)> = vec![
         (b"Hello".to_vec(), HashMap::new()),
@@ -461,21 +526,22 @@ async fn s_push_content(h: &mut Host) -> Result<(), Fail> {
 /// C13 through the RPC surface with enough resources that page tokens take many different values
 async fn s_long_walk(h: &mut Host) -> Result<(), Fail> {
     let mut topics = Vec::new();
-    for i in 0..300 { let n = format!("projects/lw/topics/t{}", i); h.topic(&n).await.map_err(c10("CreateTopic of an absent, well-formed name"))?; topics.push(n); }
-    for size in [1, 7, 250] {
+    for i in 0..1003 { let n = format!("projects/lw/topics/t{}", i); h.topic(&n).await.map_err(c10("CreateTopic of an absent, well-formed name"))?; topics.push(n); }
+    for size in [1, 7, 250, 0, 1000, 1001, i32::MAX] {
+        let eff = if size == 0 { 20 } else if size > 1000 { 1000 } else { size };
         let mut tok = String::new();
         let mut got = Vec::new();
-        for _ in 0..400 {
+        for _ in 0..1100 {
             let r = match h.publisher.list_topics(ListTopicsRequest { project: "projects/lw".into(), page_size: size, page_token: tok.clone() }).await {
                 Ok(r) => r.into_inner(),
                 Err(e) => return Err(f("C13", format!("ListTopics(page_size={}) rejected the server-issued token {:?} after {} topics: {:?}", size, tok, got.len(), e.code()))),
             };
-            if r.topics.len() > size as usize { return Err(f("C13", format!("ListTopics page of {} > page size {}", r.topics.len(), size))); }
+            if r.topics.len() > eff as usize { return Err(f("C13", format!("ListTopics page of {} > effective page size {}", r.topics.len(), eff))); }
             got.extend(r.topics.iter().map(|t| t.name.clone()));
             tok = r.next_page_token;
             if tok.is_empty() { break; }
         }
-        if got != topics { return Err(f("C13", format!("ListTopics(page_size={}) walk over 300 topics yields {} names (first difference at {:?})", size, got.len(), got.iter().zip(topics.iter()).position(|(a, b)| a != b)))); }
+        if got != topics { return Err(f("C13", format!("ListTopics(page_size={}) walk over 1003 topics yields {} names (first difference at {:?})", size, got.len(), got.iter().zip(topics.iter()).position(|(a, b)| a != b)))); }
     }
     Ok(())
 }
@@ -527,6 +593,45 @@ async fn s_cross_consumers(h: &mut Host) -> Result<(), Fail> {
     let more = h.pull(s2, 10, true).await.map_err(setup("pull"))?;
     if more.len() != 1 { return Err(f("C01+C02", format!("after acknowledging 6 and publishing 1, the remaining subscription delivers {} messages", more.len()))); }
     Ok(())
+}
+
+
+/// C01 with an open, promptly acknowledging StreamingPull and several publishers at once: every accepted message
+/// reaches the stream without any further client request
+async fn s_stream_concurrent_publish(h: &mut Host) -> Result<(), Fail> {
+    let (t, s) = ("projects/p/topics/scp", "projects/p/subscriptions/scp");
+    h.topic(t).await.map_err(c10("CreateTopic of an absent, well-formed name"))?;
+    h.sub(s, t, 0, None).await.map_err(c10("CreateSubscription of an absent name on an existing topic of the same project"))?;
+    let (tx, mut rx) = tokio::sync::mpsc::channel::<StreamingPullRequest>(64);
+    let first = StreamingPullRequest { subscription: s.to_string(), ack_ids: vec![], modify_deadline_seconds: vec![], modify_deadline_ack_ids: vec![], stream_ack_deadline_seconds: 0, client_id: "c".into(), max_outstanding_messages: 100, max_outstanding_bytes: 100_000_000 };
+    let mut inbound = h.subscriber.streaming_pull(async_stream::stream! { yield first; while let Some(r) = rx.recv().await { yield r; } }).await.map_err(setup("streaming_pull"))?.into_inner();
+    let (seen_tx, mut seen_rx) = tokio::sync::mpsc::unbounded_channel::<String>();
+    let consumer = tokio::spawn(async move {
+        while let Ok(Some(r)) = inbound.message().await {
+            let acks: Vec<String> = r.received_messages.iter().map(|m| m.ack_id.clone()).collect();
+            for m in r.received_messages.iter() { let _ = seen_tx.send(m.message.as_ref().map(|x| x.message_id.clone()).unwrap_or_default()); }
+            if tx.send(StreamingPullRequest { subscription: String::new(), ack_ids: acks, modify_deadline_seconds: vec![], modify_deadline_ack_ids: vec![], stream_ack_deadline_seconds: 0, client_id: String::new(), max_outstanding_messages: 0, max_outstanding_bytes: 0 }).await.is_err() { break; }
+        }
+    });
+    tokio::time::sleep(Duration::from_millis(100)).await;
+    let mut seen = std::collections::HashSet::new();
+    let mut result = Ok(());
+    'rounds: for round in 0..6 {
+        let pubs = (0..4).map(|i| { let mut p = h.publisher.clone(); async move {
+            p.publish(PublishRequest { topic: t.to_string(), messages: vec![PubsubMessage { publish_time: None, attributes: Default::default(), message_id: String::new(), ordering_key: String::new(), data: vec![round as u8, i as u8] }] }).await.map(|r| r.into_inner().message_ids)
+        } });
+        let mut accepted = std::collections::HashSet::new();
+        for r in futures::future::join_all(pubs).await { match r { Ok(ids) => accepted.extend(ids), Err(e) => { result = Err(f("C01", format!("Publish failed: {:?}", e.code()))); break 'rounds; } } }
+        let wait = async { while !accepted.is_subset(&seen) { match seen_rx.recv().await { Some(x) => { seen.insert(x); } None => break } } };
+        if tokio::time::timeout(Duration::from_secs(5), wait).await.is_err() {
+            let mut missing: Vec<&String> = accepted.difference(&seen).collect();
+            missing.sort();
+            result = Err(f("C01+C06", format!("round {}: 4 concurrent Publish calls returned ids, but the open (acknowledging) StreamingPull never received {:?} within 5 s", round, missing)));
+            break;
+        }
+    }
+    consumer.abort();
+    result
 }
 
 /// C15 (streaming limit) and C17 (inconsistent control messages) on an open StreamingPull
@@ -583,6 +688,7 @@ pub fn run_all() -> i32 {
     let scenarios: Vec<(&str, fn(&mut Host) -> std::pin::Pin<Box<dyn std::future::Future<Output = Result<(), Fail>> + '_>>)> = vec![
         ("pull_limits", |h| Box::pin(s_pull_limits(h))),
         ("batches", |h| Box::pin(s_batches(h))),
+        ("multi_extend", |h| Box::pin(s_multi_extend(h))),
         ("stream_modack", |h| Box::pin(s_stream_modack(h))),
         ("stream_limits", |h| Box::pin(s_stream_limits(h))),
         ("namespace", |h| Box::pin(s_namespace(h))),
@@ -592,6 +698,7 @@ pub fn run_all() -> i32 {
         ("push_content", |h| Box::pin(s_push_content(h))),
         ("long_walk", |h| Box::pin(s_long_walk(h))),
         ("cross_consumers", |h| Box::pin(s_cross_consumers(h))),
+        ("stream_concurrent_publish", |h| Box::pin(s_stream_concurrent_publish(h))),
     ];
     let n = scenarios.len();
     // every scenario runs; each failing one prints its own WITNESS line (the driver picks the one for the property at hand)
